@@ -426,10 +426,10 @@ func init() {
 		Strategies: []string{"drain"},
 		Components: map[string]string{
 			"pkg/runtime-tools/generate (Generator.Adjust and helpers)": "real",
-			"opencontainers/runtime-tools generate":                      "real",
-			"pkg/api helpers (markers, ToOCI conversions)":               "real",
-			"map iteration order": "simulated (simorder): every permutation index 0..23 per case",
-			"spec / adjustment generator and model": "harness",
+			"opencontainers/runtime-tools generate":                     "real",
+			"pkg/api helpers (markers, ToOCI conversions)":              "real",
+			"map iteration order":                                       "simulated (simorder): every permutation index 0..23 per case",
+			"spec / adjustment generator and model":                     "harness",
 		},
 		Rule: "random OCI specs (process and linux sections, original annotations, env, mounts, devices, hooks, rlimits, resources) and adjustments mixing set / remove / remove-then-set (the set listed before or after its removal marker) over every adjustable field; each case is applied under 24 map-iteration orders of the ranged maps (every permutation for maps of up to 4 keys, sampled beyond); " +
 			"non-trivial = some ranged map had at least two keys; distinct = distinct (spec, adjustment) pair",
